@@ -110,6 +110,13 @@ func (t *tr) expr(e ast.Expr) string {
 	if _, ok := t.s.tracked[p]; ok {
 		return leanVar(p)
 	}
+	// [group Pots] begin
+	if t.s.group == "Pots" {
+		if v, ok := t.potsExpr(e); ok {
+			return v
+		}
+	}
+	// [group Pots] end
 	switch x := e.(type) {
 	case *ast.Ident:
 		if x.Name == "true" || x.Name == "false" {
@@ -290,6 +297,13 @@ func (t *tr) block(stmts []ast.Stmt, k string, own, outer scope) string {
 		}
 		return o
 	}
+	// [group Pots] begin
+	if t.s.group == "Pots" {
+		if out, ok := t.potsStmt(s, rest, k, own, outer, nested); ok {
+			return out
+		}
+	}
+	// [group Pots] end
 	switch x := s.(type) {
 	case *ast.ReturnStmt:
 		if len(x.Results) >= 1 {
@@ -1296,6 +1310,9 @@ func main() {
 	// [group Tb] begin
 	writeGroup(root, out, "Tb")
 	// [group Tb] end
+	// [group Pots] begin
+	writeGroup(root, out, "Pots")
+	// [group Pots] end
 	reportIgnored(out) // [newfields]
 }
 
@@ -1318,6 +1335,11 @@ func writeGroup(root, out, group string) {
 		}
 		t := &tr{s: s}
 		stmts := fd.Body.List
+		// [group Pots] begin
+		if s.group == "Pots" {
+			stmts = t.potsDescend(stmts)
+		}
+		// [group Pots] end
 		if s.loop != "" {
 			stmts = t.loopBody(stmts)
 		}
